@@ -29,6 +29,7 @@ def run(tier):
     builds = [0, 31] if tier == "quick" else [0, 8, 23, 31]
     recs = pc.run_programs(d, "progs", programs, builds, ts_syntax=True)
     fails = pc.judge_obs(PID, "ObsC03.cfg", recs, "c03", "repository + generated programs", stats, d)
+    pc.replay_known_findings(PID, "ObsC03.cfg", d, builds)
     cen = pc.census(recs)
     ends = {}
     for r in recs:
